@@ -221,10 +221,12 @@ func (o *out) strListDef(name string, l []string, found bool) {
 
 // shapeDef emits a fingerprint of the function's normalised body: printed
 // without comments, with statements that only call logging.* removed.
-func (o *out) shapeDef(p *pkg, recv, name string) {
-	def := "shape_" + name
+func (o *out) shapeDef(p *pkg, recv, name string) { o.shapeDefAs(p, recv, name, "") }
+
+func (o *out) shapeDefAs(p *pkg, recv, name, prefix string) {
+	def := "shape_" + prefix + name
 	if recv != "" {
-		def = "shape_" + recv + "_" + name
+		def = "shape_" + prefix + recv + "_" + name
 	}
 	fd := p.fn(recv, name)
 	if fd == nil || fd.Body == nil {
